@@ -42,7 +42,7 @@ Definition argmin (ds : list R) : nat := match ds with [] => O | d :: t => argmi
 (** ** DiscreteCurve: the parameter is an index *)
 Definition dc_point (pts : list vec) (i : nat) : vec := nth i pts vzero.
 Definition slice {A : Type} (l : list A) (a b : nat) : list A := firstn (S b - a) (skipn a l).  (* l[a : b+1] *)
-Definition dc_discretize (pts : list vec) (a b : nat) : list vec :=
+Definition dc_discretize {A : Type} (pts : list A) (a b : nat) : list A :=
   if (a <=? b)%nat then slice pts a b else rev (slice pts b a).
 Definition dc_length (pts : list vec) (a b : nat) : R := polylen (dc_discretize pts a b).
 Definition dc_closest (pts : list vec) (q : vec) : nat := argmin (map (fun p => dist p q) pts).
@@ -199,4 +199,4 @@ Fixpoint close_rlist (tol : R) (l m : list R) : Prop :=
 Definition interior {A : Type} (l : list A) : list A := removelast (tl l).
 Definition edge_params (ps pe : R) (n : nat) : list R := interior (linspace ps pe (n + 2)).
 Definition edge_points (f : R -> vec) (ps pe : R) (n : nat) : list vec := interior (fc_discretize f ps pe (n + 2)).
-Definition dc_edge_points (pts : list vec) (a b : nat) : list vec := interior (dc_discretize pts a b).
+Definition dc_edge_points {A : Type} (pts : list A) (a b : nat) : list A := interior (dc_discretize pts a b).
